@@ -203,7 +203,7 @@ theorem dict_set_of_not_mem {κ ν : Type} [DecidableEq κ] (d : List (κ × ν)
     simp [Dict.set, this, ih h.2]
 
 /-- the ranking loop: `token_ordering[t[0]] = order_idx; order_idx += 1` over pairs with distinct keys -/
-private theorem rank_loop (L : List (String × Nat)) (k : Nat) (acc : List (String × Nat))
+theorem rank_loop (L : List (String × Nat)) (k : Nat) (acc : List (String × Nat))
     (hnd : ((acc ++ L).map (·.1)).Nodup) :
     (L.foldl (fun (b : Nat × List (String × Nat)) a => (b.1 + 1, Dict.set b.2 a.1 b.1)) (k, acc)).2
       = acc ++ (L.zipIdx k).map (fun p => (p.1.1, p.2)) := by
